@@ -45,6 +45,7 @@ Diff(a, b) ==
 TInit == Init /\ id \in DOMAIN Traces /\ k = 0 /\ verdict = "running"
 Act(ev) == CASE ev.a = "step"    -> Step
              [] ev.a = "finish"  -> Finish
+             [] ev.a = "recover" -> Recover
              [] ev.a = "retry"   -> RunHandler(pending) /\ UNCHANGED <<net, nreq, seqc, sub>>
              [] ev.a = "deliver" -> Deliver(ev.s)
 TNext == /\ verdict = "running" /\ k < Len(Tr)
